@@ -102,6 +102,7 @@ def all_variants():
                     add("bad_value", "late", pos=pos, rg=rg)
                     add("none_nonnull", "late", pos=pos, rg=rg)
                 add("codec_col", "late", pos=pos)
+                add("bad_dtype", "late", pos=pos)
             add("dup_col", "validation")
             add("plain_dup", "validation")
             add("plain_pon_missing", "validation")
@@ -223,6 +224,15 @@ def build(v, rng, sid):
         r = later_row()
         [f for f in frame1 if f[0] == "s"][0][2][r] = None
         bad_rows = [r]
+    elif kind == "bad_dtype":
+        # a dtype the existing column's type cannot take: complex numbers anywhere, integers in the text column
+        if order[idx] == "s" and rng.random() < 0.5:
+            frame1[idx][1] = "int64"
+            frame1[idx][2] = [1] * n1
+        else:
+            frame1[idx][1] = "complex128"
+            frame1[idx][2] = [1] * n1
+        bad_rows = list(range(n1))
     elif kind == "codec_col":
         kw["compression"] = {order[idx]: "FOO", "_default": rng.choice([None, "GZIP"])}
         bad_rows = list(range(n1))
